@@ -5,12 +5,12 @@
 //! registration API and `World::feed` pushes one marshalled RTP packet through
 //! `PacketReceiver::receive`; the per-listener channels are drained after every packet.
 //!
-//! The oracle is `Ref`, a reference demultiplexer written from the property statement
-//! (RID -> MID -> SSRC -> unambiguous payload type -> nobody; a packet identified by RID, MID
-//! or payload type teaches the SSRC -> receiver binding).  It is evaluated under two readings of
-//! what a *closed* receiver means (the statement is silent): `void` = registrations of a closed
-//! receiver count as absent, `keep` = they stay (and swallow their packets).  A delivery is
-//! accepted when either reading names the receiving listener; a drop is always accepted.
+//! The oracle is `Spec`, a reference demultiplexer written from the property statement
+//! (RID -> MID -> SSRC -> unambiguous payload type -> nobody; a packet identified by RID or MID
+//! teaches the SSRC -> receiver binding). The statement is silent about *closed* receivers, so
+//! their registrations are treated as optional (honoured or already forgotten, at any time) and
+//! the reference tracks the set of possible SSRC bindings; a delivery is accepted when some
+//! admissible choice names the receiving listener, a drop is always accepted.
 use bytes::Bytes;
 use rustrtc::rtp::{RtpHeader, RtpPacket};
 use rustrtc::transports::PacketReceiver;
@@ -428,6 +428,7 @@ pub enum Via {
     Mid,
     Ssrc,
     Pt,
+    Prov,
     Nobody,
 }
 impl Via {
@@ -437,53 +438,68 @@ impl Via {
             Via::Mid => "mid",
             Via::Ssrc => "ssrc",
             Via::Pt => "pt",
+            Via::Prov => "prov-fallback",
             Via::Nobody => "nobody",
         }
     }
+    fn bit(self) -> u8 {
+        1 << (self as u8)
+    }
+    pub fn names(mask: u8) -> String {
+        let all = [Via::Rid, Via::Mid, Via::Ssrc, Via::Pt, Via::Prov, Via::Nobody];
+        let v: Vec<&str> = all.iter().filter(|x| mask & x.bit() != 0).map(|x| x.name()).collect();
+        v.join("|")
+    }
 }
 
+const UNBOUND: u8 = 1 << 3;
+
+/// Reference demultiplexer written from the property statement: RID -> MID -> SSRC ->
+/// unambiguous payload type -> nobody (single-provisional fallback tolerated only when no other
+/// listener lists the payload type); identification by RID, MID or payload type binds the SSRC.
+///
+/// The statement is silent about a *closed* receiver, so its registrations (and SSRC bindings
+/// that point at it) are optional: each may be honoured (the packet is swallowed) or already
+/// forgotten, independently and at any time; a packet identified for the closed receiver may or
+/// may not rebind the SSRC. The reference therefore tracks, per SSRC, the *set* of possible
+/// bindings, and a delivery is accepted when some admissible choice names the receiving listener.
 #[derive(Clone, PartialEq, Eq, Hash, Debug)]
-pub struct Ref {
+pub struct Spec {
     rid: [Option<u8>; 2],
     mid: [Option<u8>; 2],
-    pub ssrc: [Option<u8>; 3],
     pts: [u8; NL],
     prov: [bool; NL],
-    /// listeners whose registrations count as absent (closed receivers under the `void` reading)
-    void: [bool; NL],
+    /// per SSRC: bit l = may be bound to listener l, bit 3 = may be unbound
+    pub poss: [u8; 3],
+    closed: Option<u8>,
     mid_on: bool,
     rid_on: bool,
 }
 
-#[derive(Clone, Copy, PartialEq, Eq, Debug)]
+#[derive(Clone, Copy, PartialEq, Eq, Debug, Default)]
 pub struct Decision {
-    pub target: Option<u8>,
-    pub via: Via,
-    /// single-provisional fallback acceptable for this packet (only meaningful when target is None)
-    pub prov_ok: Option<u8>,
+    /// listeners that some admissible choice identifies for the packet
+    pub allowed: u8,
+    /// identification routes over all admissible choices (Via bits)
+    pub vias: u8,
+    /// route of a choice consistent with the observed delivery (Via bit, 0 if none)
+    pub via_taken: u8,
+    /// the closed receiver is among the identified ones
+    pub names_closed: bool,
+    /// observed delivery is admissible
+    pub ok: bool,
 }
 
-impl Ref {
-    pub fn new(cfg: &Cfg, closed_is_void: bool) -> Ref {
-        let mut r = Ref {
-            rid: [None; 2],
-            mid: [None; 2],
-            ssrc: [None; 3],
-            pts: [0; NL],
-            prov: [false; NL],
-            void: [false; NL],
-            mid_on: cfg.mid_on,
-            rid_on: cfg.rid_on,
-        };
-        if closed_is_void {
-            if let Some((l, Stat::ClosedBefore | Stat::ClosedAfter)) = cfg.special {
-                r.void[l as usize] = true;
-            }
+impl Spec {
+    pub fn new(cfg: &Cfg) -> Spec {
+        let mut r = Spec { rid: [None; 2], mid: [None; 2], pts: [0; NL], prov: [false; NL], poss: [UNBOUND; 3], closed: None, mid_on: cfg.mid_on, rid_on: cfg.rid_on };
+        if let Some((l, Stat::ClosedBefore | Stat::ClosedAfter)) = cfg.special {
+            r.closed = Some(l);
         }
         for o in &cfg.ops {
             let l = o.l;
             match o.k {
-                Kind::Ssrc(i) => r.ssrc[i as usize] = Some(l),
+                Kind::Ssrc(i) => r.poss[i as usize] = 1 << l,
                 Kind::Rid(i) => r.rid[i as usize] = Some(l),
                 Kind::Mid(i) => r.mid[i as usize] = Some(l),
                 Kind::PtList(m) => r.pts[l as usize] = m,
@@ -492,66 +508,109 @@ impl Ref {
                 Kind::Clear => {
                     r.rid = [None; 2];
                     r.mid = [None; 2];
-                    r.ssrc = [None; 3];
+                    r.poss = [UNBOUND; 3];
                     r.pts = [0; NL];
                     r.prov = [false; NL];
                 }
             }
         }
+        r.close_over();
         r
     }
-    fn live(&self, l: Option<u8>) -> Option<u8> {
-        l.filter(|l| !self.void[*l as usize])
+    /// a binding to the closed receiver may already have been forgotten
+    fn close_over(&mut self) {
+        if let Some(c) = self.closed {
+            for p in self.poss.iter_mut() {
+                if *p & (1 << c) != 0 {
+                    *p |= UNBOUND;
+                }
+            }
+        }
     }
-    /// Which listener does the property statement identify for this packet?  Updates the learnt
-    /// SSRC binding (RID / MID / payload-type identification teaches SSRC -> receiver).
-    pub fn demux(&mut self, p: Pkt) -> Decision {
-        let mut target = None;
-        let mut via = Via::Nobody;
-        if self.rid_on && (1..=2).contains(&p.rid) {
-            if let Some(l) = self.live(self.rid[(p.rid - 1) as usize]) {
-                target = Some(l);
-                via = Via::Rid;
-            }
-        }
-        if target.is_none() && self.mid_on && (1..=2).contains(&p.mid) {
-            if let Some(l) = self.live(self.mid[(p.mid - 1) as usize]) {
-                target = Some(l);
-                via = Via::Mid;
-            }
-        }
-        if target.is_none() {
-            if let Some(l) = self.live(self.ssrc[p.s as usize]) {
-                target = Some(l);
-                via = Via::Ssrc;
-            }
-        }
-        let mut listing = 0u8;
-        let mut provs = 0u8;
+    /// Judge the observed delivery (`delivered` = receiving listener, None = dropped) and advance.
+    pub fn step(&mut self, p: Pkt, delivered: Option<u8>) -> Decision {
+        let c = self.closed;
+        let is_c = |l: Option<u8>| l.is_some() && l == c;
+        let rid_t = if self.rid_on && (1..=2).contains(&p.rid) { self.rid[(p.rid - 1) as usize] } else { None };
+        let mid_t = if self.mid_on && (1..=2).contains(&p.mid) { self.mid[(p.mid - 1) as usize] } else { None };
+        let mut live_listing = 0u8;
+        let mut live_provs = 0u8;
         for l in 0..NL {
-            if !self.void[l] {
-                if self.pts[l] & (1 << p.p) != 0 {
-                    listing |= 1 << l;
+            if Some(l as u8) == c {
+                continue;
+            }
+            if self.pts[l] & (1 << p.p) != 0 {
+                live_listing |= 1 << l;
+            }
+            if self.prov[l] {
+                live_provs |= 1 << l;
+            }
+        }
+        // optional facts (only those that exist and concern the closed receiver vary)
+        let opt = [is_c(rid_t), is_c(mid_t), c.is_some_and(|c| self.pts[c as usize] & (1 << p.p) != 0), c.is_some_and(|c| self.prov[c as usize])];
+        let cbit = c.map(|c| 1u8 << c).unwrap_or(0);
+        let poss = self.poss[p.s as usize];
+        let mut d = Decision::default();
+        let mut newposs_ok = 0u8;
+        let mut newposs_all = 0u8;
+        for combo in 0u8..16 {
+            // skip combos that toggle a fact which is not optional
+            if (0..4).any(|i| !opt[i] && combo & (1 << i) != 0) {
+                continue;
+            }
+            let present = |i: usize| !opt[i] || combo & (1 << i) == 0;
+            for vbit in 0..4u8 {
+                if poss & (1 << vbit) == 0 {
+                    continue;
                 }
-                if self.prov[l] {
-                    provs |= 1 << l;
+                let (t, via) = if rid_t.is_some() && present(0) {
+                    (rid_t, Via::Rid)
+                } else if mid_t.is_some() && present(1) {
+                    (mid_t, Via::Mid)
+                } else if vbit < 3 {
+                    (Some(vbit), Via::Ssrc)
+                } else {
+                    let listing = live_listing | if opt[2] && present(2) { cbit } else { 0 };
+                    let provs = live_provs | if opt[3] && present(3) { cbit } else { 0 };
+                    if listing.count_ones() == 1 {
+                        (Some(listing.trailing_zeros() as u8), Via::Pt)
+                    } else if provs.count_ones() == 1 && listing & !provs == 0 {
+                        (Some(provs.trailing_zeros() as u8), Via::Prov)
+                    } else {
+                        (None, Via::Nobody)
+                    }
+                };
+                d.vias |= via.bit();
+                if let Some(t) = t {
+                    d.allowed |= 1 << t;
+                    if Some(t) == c {
+                        d.names_closed = true;
+                    }
+                }
+                let binds = matches!(via, Via::Rid | Via::Mid | Via::Pt);
+                let mut np = if binds { 1u8 << t.unwrap() } else { 1 << vbit };
+                if binds && (t == c || via == Via::Pt) {
+                    // swallowed by the closed receiver: rebinding optional; binding learnt from
+                    // a payload type (RFC 8843 9.2, what the transport does) is accepted, not demanded
+                    np |= 1 << vbit;
+                }
+                newposs_all |= np;
+                let consistent = match delivered {
+                    None => true,
+                    Some(x) => t == Some(x) && t != c,
+                };
+                if consistent {
+                    newposs_ok |= np;
+                    if d.via_taken == 0 {
+                        d.via_taken = via.bit();
+                    }
                 }
             }
         }
-        if target.is_none() && listing.count_ones() == 1 {
-            target = Some(listing.trailing_zeros() as u8);
-            via = Via::Pt;
-        }
-        let mut prov_ok = None;
-        if target.is_none() && provs.count_ones() == 1 && listing & !provs == 0 {
-            // RID / MID / SSRC keys of other listeners cannot match here (target would be set);
-            // the only remaining registered key that can match is a payload type.
-            prov_ok = Some(provs.trailing_zeros() as u8);
-        }
-        if matches!(via, Via::Rid | Via::Mid | Via::Pt) {
-            self.ssrc[p.s as usize] = target;
-        }
-        Decision { target, via, prov_ok }
+        d.ok = newposs_ok != 0;
+        self.poss[p.s as usize] = if d.ok { newposs_ok } else { newposs_all };
+        self.close_over();
+        d
     }
     /// Which registered keys of listener `l` match packet `p` (for signatures)?
     pub fn matching_keys(&self, l: u8, p: Pkt) -> String {
@@ -562,7 +621,7 @@ impl Ref {
         if self.mid_on && (1..=2).contains(&p.mid) && self.mid[(p.mid - 1) as usize] == Some(l) {
             v.push("mid");
         }
-        if self.ssrc[p.s as usize] == Some(l) {
+        if self.poss[p.s as usize] & (1 << l) != 0 {
             v.push("ssrc");
         }
         if self.pts[l as usize] & (1 << p.p) != 0 {
@@ -588,6 +647,58 @@ pub struct Viol {
 /// senders included). It is used only as the key of the canonical-state merge of pass B — never
 /// as an oracle — and is itself checked at every step against the observed delivery; a history on
 /// which it mispredicts is never merged (`off_model`).
+/// Which of the behaviours the bookkeeping model has to mirror. Measured on the real transport
+/// by four probes at start-up (`calibrate`), so that the merge key keeps tracking the transport
+/// when one of the known registry defects is repaired.
+#[derive(Clone, Copy, PartialEq, Eq, Hash, Debug, Default)]
+pub struct Flavor {
+    /// clear_listeners() also forgets MID registrations
+    pub clear_mid: bool,
+    /// the provisional fallback is skipped when some receiver lists the payload type
+    pub prov_unlisted: bool,
+    /// payload-type routes of closed receivers are ignored
+    pub pt_skips_closed: bool,
+    /// an SSRC is never bound to a closed receiver and a foreign SSRC entry survives its removal
+    pub no_closed_bind: bool,
+}
+
+static FLAVOR: OnceLock<Flavor> = OnceLock::new();
+
+pub fn flavor() -> Flavor {
+    *FLAVOR.get().unwrap_or(&Flavor { clear_mid: false, prov_unlisted: false, pt_skips_closed: false, no_closed_bind: false })
+}
+
+/// Probe the real transport once. Each probe is a two- or three-operation configuration plus one
+/// packet whose observable outcome differs between the two behaviours.
+pub fn calibrate() -> Flavor {
+    let conn = mk_conn();
+    let op = |l: u8, k: Kind| Op { l, k };
+    let plain = Pkt { s: 0, p: 0, mid: 0, rid: 0 };
+    let mut f = Flavor::default();
+    {
+        let cfg = Cfg { ops: vec![op(0, Kind::Mid(0)), op(0, Kind::Clear)], special: None, mid_on: true, rid_on: true };
+        let mut w = World::build(&cfg, &conn);
+        f.clear_mid = w.feed(Pkt { mid: 1, ..plain }).delivered == 0;
+    }
+    {
+        let cfg = Cfg { ops: vec![op(0, Kind::PtList(1)), op(1, Kind::PtList(1)), op(2, Kind::Prov)], special: None, mid_on: true, rid_on: true };
+        let mut w = World::build(&cfg, &conn);
+        f.prov_unlisted = w.feed(plain).delivered == 0;
+    }
+    {
+        let cfg = Cfg { ops: vec![op(0, Kind::PtList(1)), op(1, Kind::PtList(1))], special: Some((0, Stat::ClosedAfter)), mid_on: true, rid_on: true };
+        let mut w = World::build(&cfg, &conn);
+        f.pt_skips_closed = w.feed(plain).delivered == 0b010;
+    }
+    {
+        let cfg = Cfg { ops: vec![op(0, Kind::Ssrc(0)), op(1, Kind::Rid(0))], special: Some((1, Stat::ClosedAfter)), mid_on: true, rid_on: true };
+        let mut w = World::build(&cfg, &conn);
+        f.no_closed_bind = w.feed(Pkt { rid: 1, ..plain }).bound & 1 != 0;
+    }
+    let _ = FLAVOR.set(f);
+    f
+}
+
 #[derive(Clone, PartialEq, Eq, Hash, Debug)]
 pub struct Lazy {
     by_ssrc: [Option<u8>; 3],
@@ -599,11 +710,12 @@ pub struct Lazy {
     full: [bool; NL],
     mid_on: bool,
     rid_on: bool,
+    fl: Flavor,
 }
 
 impl Lazy {
     fn new(cfg: &Cfg) -> Lazy {
-        let mut z = Lazy { by_ssrc: [None; 3], by_rid: [None; 2], by_mid: [None; 2], routes: [None; NL], closed: [false; NL], full: [false; NL], mid_on: cfg.mid_on, rid_on: cfg.rid_on };
+        let mut z = Lazy { by_ssrc: [None; 3], by_rid: [None; 2], by_mid: [None; 2], routes: [None; NL], closed: [false; NL], full: [false; NL], mid_on: cfg.mid_on, rid_on: cfg.rid_on, fl: flavor() };
         match cfg.special {
             Some((l, Stat::ClosedBefore)) => z.closed[l as usize] = true,
             Some((l, Stat::Full)) => z.full[l as usize] = true,
@@ -628,6 +740,9 @@ impl Lazy {
                     z.by_ssrc = [None; 3];
                     z.by_rid = [None; 2];
                     z.routes = [None; NL];
+                    if z.fl.clear_mid {
+                        z.by_mid = [None; 2];
+                    }
                 }
             }
         }
@@ -681,7 +796,7 @@ impl Lazy {
         let mut provs = 0u8;
         for l in 0..NL {
             if let Some(r) = self.routes[l] {
-                if r.0 & (1 << p.p) != 0 {
+                if r.0 & (1 << p.p) != 0 && !(self.fl.pt_skips_closed && self.closed[l]) {
                     listing |= 1 << l;
                 }
                 if r.1 {
@@ -694,17 +809,19 @@ impl Lazy {
             bind = true;
         }
         if sel.is_none() {
-            if provs.count_ones() == 1 {
+            if provs.count_ones() == 1 && !(self.fl.prov_unlisted && listing != 0) {
                 sel = Some(provs.trailing_zeros() as u8);
             }
             bind = false;
         }
         let l = sel?;
-        if bind {
+        if bind && !(self.fl.no_closed_bind && self.closed[l as usize]) {
             self.bind(p.s, l);
         }
         if self.closed[l as usize] {
-            self.by_ssrc[p.s as usize] = None;
+            if !self.fl.no_closed_bind {
+                self.by_ssrc[p.s as usize] = None;
+            }
             for m in [&mut self.by_ssrc[..], &mut self.by_rid[..], &mut self.by_mid[..]] {
                 for e in m.iter_mut() {
                     if *e == Some(l) {
@@ -735,12 +852,11 @@ impl Canon {
     pub fn is_deviant(&self) -> bool {
         self.deviant.is_some()
     }
-    fn pack(void_ssrc: &[Option<u8>; 3], keep_ssrc: &[Option<u8>; 3], bound: u8, z: &Lazy) -> [u8; 18] {
+    fn pack(poss: &[u8; 3], bound: u8, z: &Lazy) -> [u8; 18] {
         let o = |x: Option<u8>| x.unwrap_or(0xFF);
         let mut k = [0u8; 18];
         for i in 0..3 {
-            k[i] = o(void_ssrc[i]);
-            k[3 + i] = o(keep_ssrc[i]);
+            k[i] = poss[i];
             k[7 + i] = o(z.by_ssrc[i]);
             k[14 + i] = match z.routes[i] {
                 None => 0xFF,
@@ -764,8 +880,7 @@ pub struct Run {
     pub off_model: u32,
     pub n: usize,
     pub obs: [Obs; MAXH],
-    pub dec_void: [Decision; MAXH],
-    pub dec_keep: [Decision; MAXH],
+    pub dec: [Decision; MAXH],
     pub viols: Vec<Viol>,
     pub canon: Canon,
 }
@@ -776,84 +891,68 @@ fn lname(l: u8) -> String {
 
 /// Replay `hist` on a fresh transport and judge every step.
 pub fn run(cfg: &Cfg, hist: &[Pkt], conn: &Arc<IceConn>) -> Run {
-    let mut w = World::build(cfg, conn);
-    let mut rv = Ref::new(cfg, true);
-    let mut rk = Ref::new(cfg, false);
-    let has_clear = cfg.ops.iter().any(|o| o.k == Kind::Clear);
-    let mut lz = Lazy::new(cfg);
     assert!(hist.len() <= MAXH, "C19-HARNESS: history too long");
-    let nodec = Decision { target: None, via: Via::Nobody, prov_ok: None };
-    let mut out = Run { off_model: 0, n: hist.len(), obs: [Obs::default(); MAXH], dec_void: [nodec; MAXH], dec_keep: [nodec; MAXH], viols: vec![], canon: Canon { key: [0; 18], deviant: None } };
+    let mut w = World::build(cfg, conn);
+    let mut spec = Spec::new(cfg);
+    let mut lz = Lazy::new(cfg);
+    let has_clear = cfg.ops.iter().any(|o| o.k == Kind::Clear);
+    let mut out = Run { off_model: 0, n: hist.len(), obs: [Obs::default(); MAXH], dec: [Decision::default(); MAXH], viols: vec![], canon: Canon { key: [0; 18], deviant: None } };
     let mut bound = 0u8;
+    let status = match cfg.special {
+        None => "open",
+        Some((_, Stat::Full)) => "full",
+        Some(_) => "closed",
+    };
     for (i, p) in hist.iter().enumerate() {
-        // keys as they stand before the packet (for signatures)
-        let rk_before = rk.clone();
         let o = w.feed(*p);
-        let dv = rv.demux(*p);
-        let dk = rk.demux(*p);
         bound = o.bound;
         let predicted = lz.receive(*p);
         let lazy_bound = (0..3).fold(0u8, |m, i| m | ((lz.by_ssrc[i].is_some() as u8) << i));
         if predicted.map(|l| 1u8 << l).unwrap_or(0) != o.delivered || lazy_bound != o.bound {
             out.off_model += 1;
         }
-        let sp = cfg.special.map(|(_, s)| s.name()).unwrap_or("none");
         if o.foreign {
             out.viols.push(Viol { sig: "demux;foreign-item".into(), detail: format!("step {i}: a listener queue held an item that is not the packet just fed ({})", p.short()), step: i });
         }
-        if o.items as u32 != o.delivered.count_ones() || o.delivered.count_ones() > 1 {
+        let multi = o.items as u32 != o.delivered.count_ones() || o.delivered.count_ones() > 1;
+        let delivered = if o.delivered != 0 && !multi { Some(o.delivered.trailing_zeros() as u8) } else { None };
+        let before = if delivered.is_some() { Some(spec.clone()) } else { None };
+        let d = spec.step(*p, delivered);
+        if multi {
             out.viols.push(Viol {
-                sig: format!("demux;multi-delivery;special={sp}"),
+                sig: format!("demux;multi-delivery;receivers={status}"),
                 detail: format!("step {i}: packet {} appeared {} time(s) on listeners mask {:03b}", p.short(), o.items, o.delivered),
                 step: i,
             });
-        } else if o.delivered != 0 {
-            let d = o.delivered.trailing_zeros() as u8;
-            let mut allowed = 0u8;
-            for dec in [&dv, &dk] {
-                if let Some(t) = dec.target {
-                    allowed |= 1 << t;
-                } else if let Some(t) = dec.prov_ok {
-                    allowed |= 1 << t;
-                }
-            }
-            if allowed & (1 << d) == 0 {
-                let want = |dec: &Decision| match (dec.target, dec.prov_ok) {
-                    (Some(_), _) => dec.via.name().to_string(),
-                    (None, Some(_)) => "prov-fallback".to_string(),
-                    (None, None) => "nobody".to_string(),
-                };
-                let wv = want(&dv);
-                let wk = want(&dk);
-                let wants = if wv == wk { wv.clone() } else { format!("{wv}|{wk}") };
-                let status = match cfg.special {
-                    None => "open",
-                    Some((_, Stat::Full)) => "full",
-                    Some(_) => "closed",
-                };
-                let got = rk_before.matching_keys(d, *p);
-                out.viols.push(Viol {
-                    sig: format!("demux;misdelivery;got={got};want={wv};receivers={status}{}", if has_clear { ";after-clear" } else { "" }),
-                    detail: format!(
-                        "step {i}: packet {} was delivered to {} (its registered keys matching the packet: {got}; expected by {wants}); the statement identifies {} via {} (closed receivers void) / {} via {} (closed receivers kept){}",
-                        p.short(),
-                        lname(d),
-                        dv.target.map(lname).unwrap_or("nobody".into()),
-                        dv.via.name(),
-                        dk.target.map(lname).unwrap_or("nobody".into()),
-                        dk.via.name(),
-                        match (dv.prov_ok, dk.prov_ok) {
-                            (None, None) => String::new(),
-                            (a, b) => format!("; provisional fallback acceptable for {:?}/{:?}", a, b),
-                        }
-                    ),
-                    step: i,
-                });
-            }
+        } else if let (Some(x), false) = (delivered, d.ok) {
+            let got = before.as_ref().unwrap().matching_keys(x, *p);
+            let wants = Via::names(d.vias);
+            let cmask = match cfg.special {
+                Some((l, Stat::ClosedBefore | Stat::ClosedAfter)) => 1u8 << l,
+                _ => 0,
+            };
+            let want_class = if d.allowed == 0 {
+                "nobody"
+            } else if d.allowed & !cmask == 0 {
+                "closed-receiver"
+            } else {
+                "other-receiver"
+            };
+            let who: Vec<String> = (0..NL as u8).filter(|l| d.allowed & (1 << l) != 0).map(lname).collect();
+            out.viols.push(Viol {
+                sig: format!("demux;misdelivery;got={got};want={want_class};receivers={status}{}", if has_clear { ";after-clear" } else { "" }),
+                detail: format!(
+                    "step {i}: packet {} was delivered to {} (its registered keys matching the packet: {got}); the statement identifies {} (by {wants}){}",
+                    p.short(),
+                    lname(x),
+                    if who.is_empty() { "nobody".to_string() } else { who.join(" or ") },
+                    if status == "closed" { " under every admissible treatment of the closed receiver's registrations" } else { "" }
+                ),
+                step: i,
+            });
         }
         out.obs[i] = o;
-        out.dec_void[i] = dv;
-        out.dec_keep[i] = dk;
+        out.dec[i] = d;
     }
     if hist.is_empty() {
         for (i, s) in SSRC.iter().enumerate() {
@@ -863,7 +962,7 @@ pub fn run(cfg: &Cfg, hist: &[Pkt], conn: &Arc<IceConn>) -> Run {
         }
     }
     let deviant = if out.viols.is_empty() && out.off_model == 0 { None } else { Some(hist.to_vec()) };
-    out.canon = Canon { key: Canon::pack(&rv.ssrc, &rk.ssrc, bound, &lz), deviant };
+    out.canon = Canon { key: Canon::pack(&spec.poss, bound, &lz), deviant };
     out
 }
 
@@ -1001,12 +1100,13 @@ pub struct Stats {
     pub merged_pairs_checked: u64,
     pub deviant_not_expanded: u64,
     pub off_model_histories: u64,
-    pub delivered_via: [u64; 6], // rid, mid, ssrc, pt, prov, unidentified(0)
+    pub delivered_via: [u64; 6], // rid, mid, ssrc, pt, prov, unidentified (= violations)
     pub dropped_identified: u64,
     pub dropped_nobody: u64,
     pub to_closed: u64,
     pub max_alphabet: u64,
     pub machinery: Vec<String>,
+    pub abstraction_mismatch_cfgs: u64,
     pub viols: Vec<(Viol, Cfg, Vec<Pkt>)>,
 }
 
@@ -1028,6 +1128,7 @@ impl Stats {
         self.dropped_nobody += o.dropped_nobody;
         self.to_closed += o.to_closed;
         self.max_alphabet = self.max_alphabet.max(o.max_alphabet);
+        self.abstraction_mismatch_cfgs += o.abstraction_mismatch_cfgs;
         for m in o.machinery {
             if self.machinery.len() < 20 {
                 self.machinery.push(m);
@@ -1053,34 +1154,18 @@ impl Stats {
     }
 }
 
-fn tally(st: &mut Stats, cfg: &Cfg, r: &Run) {
+fn tally(st: &mut Stats, _cfg: &Cfg, r: &Run) {
     // classify the last step only (each history's last step is a distinct event)
     let i = r.n - 1;
     let o = r.obs[i];
-    let dk = r.dec_keep[i];
-    let dv = r.dec_void[i];
+    let d = r.dec[i];
     if o.delivered != 0 {
-        let via = if dv.target.is_some() { dv.via } else { dk.via };
-        let k = match via {
-            Via::Rid => 0,
-            Via::Mid => 1,
-            Via::Ssrc => 2,
-            Via::Pt => 3,
-            Via::Nobody => {
-                if dv.prov_ok.is_some() || dk.prov_ok.is_some() {
-                    4
-                } else {
-                    5
-                }
-            }
-        };
+        let k = [Via::Rid, Via::Mid, Via::Ssrc, Via::Pt, Via::Prov].iter().position(|v| d.via_taken == v.bit()).unwrap_or(5);
         st.delivered_via[k] += 1;
-    } else if dk.target.is_some() {
+    } else if d.allowed != 0 {
         st.dropped_identified += 1;
-        if let (Some(t), Some((l, Stat::ClosedAfter | Stat::ClosedBefore))) = (dk.target, cfg.special) {
-            if t == l {
-                st.to_closed += 1;
-            }
+        if d.names_closed {
+            st.to_closed += 1;
         }
     } else {
         st.dropped_nobody += 1;
@@ -1100,6 +1185,7 @@ pub fn explore(cfg: &Cfg, d1: usize, d2: usize, conn: &Arc<IceConn>) -> Stats {
     // ---- pass A ----
     // successor digest per history of length < d1, keyed by canon
     let mut by_canon: HashMap<Canon, (u64, Vec<Pkt>)> = HashMap::new();
+    let mut mismatch = false;
     let mut stack: Vec<Vec<Pkt>> = vec![vec![]];
     let r0 = run(cfg, &[], conn);
     st.reg_ops += cfg.ops.len() as u64;
@@ -1151,6 +1237,7 @@ pub fn explore(cfg: &Cfg, d1: usize, d2: usize, conn: &Arc<IceConn>) -> Stats {
             Some((d, other)) => {
                 st.merged_pairs_checked += 1;
                 if *d != digest {
+                    mismatch = true;
                     st.machinery.push(format!(
                         "abstraction unsound: histories {:?} and {:?} reach the same canonical state but differ in a successor observation (cfg {})",
                         other.iter().map(|p| p.short()).collect::<Vec<_>>(),
@@ -1160,6 +1247,9 @@ pub fn explore(cfg: &Cfg, d1: usize, d2: usize, conn: &Arc<IceConn>) -> Stats {
                 }
             }
         }
+    }
+    if mismatch {
+        st.abstraction_mismatch_cfgs += 1;
     }
     // ---- pass B ----
     if d2 > d1 {
